@@ -31,6 +31,8 @@ renormalisation, so the comparison is relative to the normalised result.  For a 
 model (1e-8 of the scale) and model against model (1e-15: the executable model obeys the law it is proved to obey;
 the residue is the 72-bit rounding of the oracle square roots of the renormalisation).
 Exceptions are canonicalised to `rejected`; a valid input rejected on one side only is a disagreement.
+  "setter" a shell object rewritten IN PLACE through its public setters (coeffs / exps) followed by the documented
+           assign_norm_cont() must behave like the constructor-built shell (see SETTER_STREAM below).
 Replay: ./check C13 --replay <file> re-runs exactly the minimised case.  No model command was added (the model
 is evaluated by the existing runner)."""
 import itertools
@@ -554,6 +556,17 @@ def eval_block_case(model, case):
     def with_shell(new):
         return xs[:pos] + [new] + xs[pos + 1:]
 
+    def term_scale(shells):
+        """magnitude of the terms behind the block: the block of the same shells with every coefficient replaced
+        by its absolute value.  A split may add large cancelling terms (d1, d - d1 with |d1| >> |d|, or a split
+        zero coefficient): their rounding noise is eps x this scale, whatever the size of the result."""
+        ab = [copy_shell(x, coeffs=[[abs(c) for c in row] for row in x.coeffs]) for x in shells]
+        st, b = blk(ab)
+        if st != "ok":
+            return 1e-300
+        b = np.asarray(b)
+        return float(np.max(np.abs(b))) if b.size and np.all(np.isfinite(b)) else 1e-300
+
     st0, b0 = blk(xs)
     if st0 != "ok":
         return {"detail": {"kind": "rejected", "module": cls, "impl": b0}, "tag": tag, "stats": stats}
@@ -620,7 +633,7 @@ def eval_block_case(model, case):
         st1, b1 = blk(with_shell(new))
         if st1 != "ok":
             return {"detail": {"kind": "rejected-one-side", "module": cls, "impl": b1}, "tag": tag, "stats": stats}
-        d = close(b0, np.asarray(b1), TOL, 1e-300, "%s block %s of shell %d" % (cls, t, pos))
+        d = close(b0, np.asarray(b1), TOL, term_scale(with_shell(new)), "%s block %s of shell %d" % (cls, t, pos))
         if d is None:
             d = close(s.to_gbasis().norm_cont, new.to_gbasis().norm_cont, TOL, 1e-300, "norm_cont")
             if d:
@@ -643,8 +656,9 @@ def eval_block_case(model, case):
         shape[ax] = m
         exp = b0 * fac.reshape(shape)
         d = None
+        ts = term_scale(xs)
         for j in range(m):     # column by column: the scaled column has another magnitude
-            d = close(np.take(exp, [j], axis=ax), np.take(np.asarray(b1), [j], axis=ax), TOL, 1e-300,
+            d = close(np.take(exp, [j], axis=ax), np.take(np.asarray(b1), [j], axis=ax), TOL, abs(fac[j]) * ts,
                       "%s block column %d (factor %s on column %d)" % (cls, j, kk, rw["col"]))
             if d:
                 d["module"] = cls
@@ -676,10 +690,10 @@ def eval_block_case(model, case):
             return {"detail": {"kind": "rejected-one-side", "module": cls, "impl": str((b2, b3, b4))[:300]}, "tag": tag,
                     "stats": stats}
         b2, b3, b4 = np.asarray(b2), np.asarray(b3), np.asarray(b4)
-        scale = max(float(np.max(np.abs(b0))) if b0.size else 0.0, float(np.max(np.abs(b2))) if b2.size else 0.0, 1e-300)
+        scale = max(term_scale(xs), term_scale(with_shell(s2)))
         d = close(b0 + b2, b3, TOL, scale, "%s block additivity in the coefficients of shell %d" % (cls, pos))
         if d is None:
-            d = close(float(kk) * b0, b4, TOL, 1e-300, "%s block homogeneity (k = %s) in the coefficients of shell %d"
+            d = close(float(kk) * b0, b4, TOL, abs(float(kk)) * term_scale(xs), "%s block homogeneity (k = %s) in the coefficients of shell %d"
                       % (cls, kk, pos))
         if d:
             d["module"] = cls
@@ -710,11 +724,77 @@ def _valid_shells(shell_jsons):
     return True
 
 
+# A shell object can also be rewritten in place through its public setters (`shell.coeffs = ...`, `shell.exps = ...`).
+# The setters do not touch `norm_cont` (assigned once by __init__); the class documents `assign_norm_cont()` as the
+# public method that (re)assigns it.
+#   "renormalise": mutate through the setters, then call assign_norm_cont(): must equal the constructor-built shell
+#                  (a disagreement is a VIOLATION); the state BEFORE that call is only observed and counted in the
+#                  evidence (`stat:setter: stale norm_cont before assign_norm_cont()`), see fixes/C13-setter-renormalise.md
+#   "strict":      no call: the mutated object itself must behave as the shell it now denotes (VIOLATION on a tree
+#                  whose setters leave norm_cont stale; passes with fixes/C13-setter-renormalise.patch applied)
+SETTER_STREAM = "renormalise"
+
+
+def eval_setter_case(model, case):
+    from gbasis.evals.eval import evaluate_basis
+    from gbasis.integrals.overlap import overlap_integral
+    xs = [XShell.from_json(s) for s in case["shells"]]
+    s = xs[0]
+    rw = case["rw"]
+    new = rw_shell(s, rw)[0][0]
+    a = _aux_np(case["aux"])
+    tag = "setter %s" % rw["type"]
+    stats = {}
+
+    def results(g):
+        gb = [g] + [x.to_gbasis() for x in xs[1:]]
+        return overlap_integral(gb), evaluate_basis(gb, a["points"])
+
+    def mutate():
+        g = s.to_gbasis()
+        if rw["type"] == "perm":
+            g.exps = np.array([float(e) for e in new.exps])
+        g.coeffs = np.array([[float(c) for c in row] for row in new.coeffs])
+        return g
+
+    st_ref, ref = call_impl(results, new.to_gbasis())
+    if st_ref != "ok":
+        return {"detail": {"kind": "rejected", "module": "constructor", "impl": ref}, "tag": tag}
+    g = mutate()
+    st0, stale = call_impl(results, g)
+    stale_differs = st0 != "ok" or any(close(x, y, TOL, 1.0, "setter") is not None for x, y in zip(ref, stale))
+    if SETTER_STREAM == "strict":
+        d = None
+        if stale_differs:
+            d = {"kind": "setter-stale-norm_cont", "module": "GeneralizedContractionShell setters",
+                 "note": "a shell changed through its coeffs/exps setters keeps the normalisation constants of the old "
+                         "contraction: results differ from those of the shell it now denotes",
+                 "overlap_diag_mutated": repr(np.diag(stale[0]).tolist()) if st0 == "ok" else str(stale)[:200],
+                 "overlap_diag_constructor": repr(np.diag(ref[0]).tolist())}
+        return {"detail": d, "nontrivial": True, "tag": tag, "stats": stats}
+    if stale_differs:
+        stats["setter: stale norm_cont before assign_norm_cont()"] = 1
+    g.assign_norm_cont()
+    st1, fresh = call_impl(results, g)
+    d = None
+    if st1 != "ok":
+        d = {"kind": "rejected-one-side", "module": "setters + assign_norm_cont", "impl": fresh}
+    else:
+        for nm, x, y in zip(("overlap_integral", "evaluate_basis"), ref, fresh):
+            d = close(x, y, TOL, 1.0, nm + " after setters + assign_norm_cont() vs constructor")
+            if d:
+                d["module"] = nm
+                break
+    return {"detail": d, "nontrivial": True, "tag": tag, "stats": stats}
+
+
 def eval_case(model, case):
     if not _valid_shells(case["basis"] if case["kind"] == "basis" else case["shells"]):
         return {"detail": None, "nontrivial": False, "tag": "invalid (zero column)"}     # only reachable by shrinking
     if case["kind"] == "basis":
         return eval_basis_case(model, case)
+    if case["kind"] == "setter":
+        return eval_setter_case(model, case)
     return eval_block_case(model, case)
 
 
@@ -935,6 +1015,19 @@ def gen_cases(tier, seed):
                     for n, rw in enumerate(rwl):
                         cases.append({"kind": "block", "cls": cls, "shells": [x.to_json() for x in xs], "pos": pos,
                                       "rw": rw, "aux": aux, "model": bool(small and n % 3 == 0 and rng.random() < 0.5)})
+    # ---------------- shells rewritten in place through the public setters ----------------
+    for rep_i in range(1 if quick else 6):
+        for (k, m) in km:
+            for rtype in ("perm", "scale"):
+                if rtype == "perm" and k == 1:
+                    continue
+                l = rng.randint(0, 3)
+                s = gen_shell_km(rng, l, k, m, rng.random() < 0.5)
+                other = gen_shell_km(rng, rng.randint(0, 2), rng.randint(1, 3), rng.randint(1, 2), rng.random() < 0.5)
+                rw = gen_rw(rng, s, 0, rtype)
+                rw.pop("shell")
+                cases.append({"kind": "setter", "shells": [s.to_json(), other.to_json()], "rw": rw,
+                              "aux": gen_aux(rng, [s, other])})
     return cases
 
 
@@ -1038,7 +1131,7 @@ def shrink_case(case):
             for t in shrink_shell_json(sj):
                 c = dict(case)
                 c["shells"] = lst[:i] + [t] + lst[i + 1:]
-                if i == case["pos"]:
+                if i == case.get("pos", 0):
                     if case["rw"]["type"] == "segment":
                         rw2 = case["rw"]
                     else:
